@@ -145,6 +145,16 @@ CLAIMED = {
             "which reactor events a server behaviour produces, the kernel's socket teardown and the wall clock are sampled, not "
             "proved; open finding c09-abort-then-buffered-update",
             "Coq proof (invariant over event sequences) + fault enumeration with real processes (differential correspondence)"),
+    "C11": ("Coq transition system of ThreadedVNCClientProxy (application thread, callFromThread FIFO, the factory Deferred with its "
+            "pending callbacks and the paused chain, the result queue, connection up/failed) and theorems over EVERY schedule of its "
+            "events: calls return in the order made, call #i gets exactly operation #i's value or error (or the connection failure), a "
+            "failing call changes nothing for later calls, an operation runs only while its own caller is blocked and the queue never "
+            "holds more than that caller's result, an unconnectable client answers instead of blocking; PARTIAL by nature for real "
+            "threads: real api.connect in child processes (one reactor lifetime each) with a probe client class, one or two clients "
+            "on separate application threads, prompt / slow / refusing / password-demanding loopback servers; each call's outcome, "
+            "completion time and the reactor-side start/finish log are judged, the model's delivered outcomes compared",
+            "CPython thread scheduling and Twisted's callFromThread are sampled; one application thread per client; timed-out calls excluded",
+            "Coq proof (invariant over all interleavings of the model) + real-thread campaign (differential correspondence)"),
 }
 NOT_YET = "check not built yet in this session (planned Coq model in DESIGN.md §3); not claimed"
 
